@@ -156,7 +156,8 @@ def gen_poolmix(seed, tier, o):
                          r.randint(1, 3))
         net["fault_rates"] = {k: r.choice([0.01, 0.03, 0.08]) for k in kinds}
     callers = []
-    big = o.get("big", tier == "thorough")
+    big = o.get("big", tier == "thorough") and net["seg"] in ("whole", "segment")
+    small = net["seg"] == "byte"
     for ci in range(n_callers):
         ops = []
         for oi in range(r.randint(1, o.get("max_ops", 4))):
@@ -182,6 +183,12 @@ def gen_poolmix(seed, tier, o):
                 op["timeouts"] = to
             if r.random() < o.get("p_trace", 0.0):
                 op["trace"] = True
+            if small:
+                # one byte per read: keep the run short
+                if op["resp"].get("body_len", 0) > 1500:
+                    _shrink_plan(op["resp"], r.randint(0, 1500))
+                if op.get("body") and op["body"]["len"] > 1500:
+                    op["body"] = {"len": r.randint(0, 1500)}
             ops.append(op)
             if r.random() < 0.2:
                 ops.append({"op": "sleep", "d": r.choice([0.0, 0.001, 0.06, 0.3])})
@@ -207,6 +214,23 @@ def gen_poolmix(seed, tier, o):
     if r.random() < 0.3:
         scn["tick"] = 1e-9
     return scn
+
+
+def _shrink_plan(plan, n):
+    """Reduce the body of a generated response plan to n bytes, keeping it well-framed."""
+    if plan.get("framing") == "none":
+        return
+    plan["body_len"] = n
+    if plan["framing"] == "cl":
+        for h in plan["headers"]:
+            if bytes(h[0]).lower() == b"content-length":
+                old = h[1]
+                h[1] = b"%d" % n
+                plan["header_lines"] = [
+                    ln.replace(old, h[1]) if bytes(ln).lower().startswith(b"content-length") else ln
+                    for ln in plan["header_lines"]]
+    elif plan["framing"] == "chunked":
+        plan["chunks"] = [n] if n else []
 
 
 class PoolMixFamily(ScenarioFamily):
